@@ -1,4 +1,5 @@
 import EinxModel.Proofs.NotationPieces
+import EinxModel.Notation.Spec
 /-!
 # Rejection at the lexer and at the delimiter stack (helper lemmas for Props/C03Reject.lean)
 
@@ -13,12 +14,6 @@ and their relation to the executable model: `lex` (first invalid token) and `bui
 namespace Einx.Notation
 
 /-! ## The alphabet -/
-
-/-- All characters that occur in a literal or operator of the notation (from the extracted tables). -/
-def litChars : List Char := (literals ++ naryOps).flatten
-
-/-- `c` can be part of a valid token. -/
-def alphabetChar (c : Char) : Bool := isNameCont c || isDigitChar c || litChars.contains c
 
 theorem isNameStart_cont {c : Char} (h : isNameStart c = true) : isNameCont c = true := by
   simp only [isNameStart, isNameCont, Bool.or_eq_true] at *
@@ -172,29 +167,6 @@ theorem lex_bad_char (text : Str) (c : Char) (hc : c ∈ text) (hbad : alphabetC
     simp [hinv] at this
 
 /-! ## Balanced delimiters -/
-
-def isDelimChar (c : Char) : Bool := c == '(' || c == '[' || c == ')' || c == ']'
-
-/-- One step of the bracket-matching scan; the stack holds the expected closing characters, innermost first. -/
-def delimStep (st : List Char) (c : Char) : Option (List Char) :=
-  if c == '(' then some (')' :: st)
-  else if c == '[' then some (']' :: st)
-  else if c == ')' || c == ']' then
-    match st with
-    | [] => none
-    | t :: r => if t == c then some r else none
-  else some st
-
-/-- The scan over a string: `none` = a closing delimiter that does not match, otherwise the closers still expected. -/
-def delimRun : Str → List Char → Option (List Char)
-  | [], st => some st
-  | c :: cs, st =>
-    match delimStep st c with
-    | some st' => delimRun cs st'
-    | none => none
-
-/-- The delimiters `( ) [ ]` of the string are properly nested and all closed. -/
-def balanced (s : Str) : Bool := delimRun s [] == some []
 
 theorem delimRun_append (xs ys : Str) (st : List Char) :
     delimRun (xs ++ ys) st = match delimRun xs st with | some st' => delimRun ys st' | none => none := by
